@@ -38,7 +38,7 @@ CHECKS = {
    note="Cross-type key rank is learned from one canonical build per run (history independence rather than a hard-coded rank); int/float keys of equal value, NaN and -0 are left to C12.",
    tech="deterministic simulation harness used as seeded history search: sequential refinement of the real map implementation (API and language level) against a small executable reference model"),
  "C13": dict(cat="exploration", ref="5.8",
-   text="Seeded sessions define macros (0..4 parameters, each unquoted 0..3 times in a quoted template from an expression grammar incl. called lambdas, if/else, arrays, map access) and use them 1..5 times in the same and later inputs, at top level, in functions, loops and as arguments of other macros, with side-effecting and loosely-binding arguments and failing inputs in between. The harness' textual-substitution model is parsed by the real parser and compared structurally with State.ExpandMacros' tree; the printed expansion (both modes) must re-parse and evaluate like the hand-substituted program; evaluation must match on a macro-free session; the first use's tree must be unchanged after later uses; nothing may be printed during expansion.",
+   text="Seeded sessions define macros (0..4 parameters, each unquoted 0..3 times in a quoted template from an expression grammar incl. called lambdas, if/else, arrays, map access) and use them 1..5 times in the same and later inputs, at top level, in functions, loops and as arguments of other macros, with side-effecting and loosely-binding arguments and failing inputs in between; macros are redefined between uses (new template, permuted/renamed/other-count parameters) and the current definitions plus a use are also delivered as one text through eval() to a macro-free session. The harness' textual-substitution model is parsed by the real parser and compared structurally with State.ExpandMacros' tree; the printed expansion (both modes) must re-parse and evaluate like the hand-substituted program; evaluation must match on a macro-free session; the first use's tree must be unchanged after later uses; nothing may be printed during expansion.",
    note="Templates are single quoted integer expressions; the printer may regroup repeated associative operators (pinned by grol's tests), so the reprint oracle compares evaluation, not tree identity.",
    tech="deterministic simulation: seeded multi-input sessions with injected failing inputs, refinement of macro expansion against an executable textual-substitution model"),
  "C14": dict(cat="exploration", ref="5.9",
@@ -50,15 +50,15 @@ CHECKS = {
    note="Chunks are aligned with generator-known top-level statements, each terminated by ';' because grol continues a statement across a newline before ++/--; repl.Interactive's terminal loop is re-implemented (6 lines) around the real parser.",
    tech="deterministic simulation: the simulator fragments the input stream (all cuts / all splits per script) and injects failing inputs; differential against whole-file delivery on the same real code"),
  "C17": dict(cat="exploration", ref="5.11",
-   text="One worker process per IO configuration (restricted, empty-only, load/save disabled; unrestricted as positive control). Histories interleave save/load/image.save/exec/run attempts with hostile names (path separators, parent references, NUL, space, ~, non-ASCII, embedded/double .gr, absolute paths, empty) and ordinary inputs inside a scratch tree with decoy files carrying unique marker bindings. After every event the whole tree incl. parent and sibling directories is snapshotted (path, size, sha256, mode): writes only to ./<ident>.gr (./.gr in empty-only) and ./grol.png, decoys byte-identical, rejected names error and change nothing, no forbidden marker ever becomes visible, exec/run unknown, and the decision for a name is position independent. The control configuration shows the monitor does see escapes.",
+   text="One worker process per IO configuration (restricted, empty-only, load/save disabled; unrestricted as positive control). Histories interleave save/load/image.save/exec/run attempts with hostile names (path separators, parent references, NUL, space, ~, lone non-ASCII bytes and valid multi-byte letters, embedded/double .gr, absolute paths, empty) and ordinary inputs inside a scratch tree with decoy files carrying unique marker bindings; as environment fault the file an accepted name maps to (or ./grol.png) is pre-created as a directory so the request fails after acceptance. After every event the whole tree incl. parent and sibling directories is snapshotted (path, size, sha256, mode): writes only to ./<ident>.gr (./.gr in empty-only) and ./grol.png, decoys byte-identical, rejected names error and change nothing, no forbidden marker ever becomes visible, exec/run unknown, and the decision for a name is position independent. The control configuration shows the monitor does see escapes.",
    note="Sampling biased to hostile shapes, not exhaustive to length 6 (that would be bounded enumeration). Reads are detected through marker bindings, not syscall tracing.",
    tech="deterministic simulation: seeded request histories against a real scratch file system, file-system snapshot invariant evaluated after every event, one process per frozen configuration"),
  "C18": dict(cat="fault_enumeration", ref="5.12",
-   text="For each generated pair (previous state A, new state B; 0..200 bindings) a reference worker process performs the real AutoSave twice and reports the crash points passed; then every crash point (before/after CreateTemp, after each written binding, after the last write, before/after rename) is enumerated by a fresh worker that SIGKILLs itself there, and ./.gr must be byte-identical to file(A) or file(B); write failures are injected with RLIMIT_FSIZE at a stride of byte offsets (EFBIG from the kernel): AutoSave must report an error and leave file(A); unchanged state must not be saved at all.",
+   text="For each generated pair (previous state A, new state B; 0..200 bindings) a reference worker process performs the real AutoSave twice and reports the crash points passed; then every crash point (before/after CreateTemp, after each written binding, after the last write, before/after rename) is enumerated by a fresh worker that SIGKILLs itself there, and ./.gr must be byte-identical to file(A) or file(B); write failures are injected with RLIMIT_FSIZE at a stride of byte offsets (EFBIG from the kernel): AutoSave must report an error and leave file(A); rename failures are injected by unlinking the temporary file under the running save at the points between its creation and the rename: error and file(A) again; after faults of every family a later healthy session saves a smaller state over the leftovers and ./.gr must be exactly that; unchanged state must not be saved at all.",
    note="Crash = process death (page cache survives); power loss / fsync ordering is out of scope as the property speaks of process death. The unwritable-directory fault is skipped when running as root.",
    tech="deterministic simulation with crash-point enumeration: worker processes killed at hook-defined points of the save path, kernel-injected write failures, on-disk state compared with the two legal versions"),
  "C19": dict(cat="exploration", ref="5.13",
-   text="Seeded attack histories: constants of every value type incl. arrays/maps on both sides of the size thresholds are bound, then hit by random sequences of 26 kinds of mutation attempts (assignment forms, ++/--, index/dot assignment, element deletion, loop variable, parameter name, nested functions and loops, self-append, catch-wrapped, alias, mutating callee, cancelled slow assignment) with explicit del+rebind interleaved; two real sessions (registers on/off) run in lock-step and after every attempt every bound constant is re-observed in both; outcome classes must agree between the modes. A monitor mode re-observes every upper-case name of general generated sessions after every input. Recorded alias-based findings (rooted in C06) are matched narrowly and the search continues past them.",
+   text="Seeded attack histories: constants of every value type incl. arrays/maps on both sides of the size thresholds are bound, then hit by random sequences of 30 kinds of mutation attempts (assignment forms, ++/--, index/dot assignment, element deletion, loop variable incl. loops starting at the constant's own value and the ninth nested loop, function-local constants, parameter name, nested functions and loops, self-append, catch-wrapped, alias, mutating callee, cancelled slow assignment) with explicit del+rebind interleaved; two real sessions (registers on/off) run in lock-step and after every attempt every bound constant is re-observed in both; outcome classes must agree between the modes. A monitor mode re-observes every upper-case name of general generated sessions after every input. Recorded alias-based findings (rooted in C06) are matched narrowly and the search continues past them.",
    note="An attempt may fail or be a no-op; re-binding an equal value is allowed by the language. Attempts on a name that is not currently bound are skipped.",
    tech="deterministic simulation: seeded attack histories with injected cancellation, invariant (constant unchanged) checked after every step on both register configurations"),
  "C20": dict(cat="exploration", ref="5.14",
